@@ -37,6 +37,11 @@ type LeaseManagerConfig struct {
 	LeaseTTLSeconds int
 	Logger          *slog.Logger
 	ResourceKind    string // used in log messages, e.g. "partition" or "group"
+	// OnAcquire, if set, runs each time a lease is newly taken (not on the
+	// already-owned fast path), before the resource is reported as owned.
+	// Another broker may have owned the resource in between, so state cached
+	// from an earlier ownership must be dropped here.
+	OnAcquire func(ctx context.Context, resourceID string)
 }
 
 // LeaseManager uses etcd leases to ensure exclusive ownership of named resources.
@@ -55,6 +60,7 @@ type LeaseManager struct {
 	ttl          int
 	logger       *slog.Logger
 	resourceKind string
+	onAcquire    func(ctx context.Context, resourceID string)
 	closed       atomic.Bool
 
 	mu      sync.RWMutex
@@ -85,6 +91,7 @@ func NewLeaseManager(client *clientv3.Client, cfg LeaseManagerConfig) *LeaseMana
 		ttl:          ttl,
 		logger:       logger,
 		resourceKind: kind,
+		onAcquire:    cfg.OnAcquire,
 		owned:        make(map[string]struct{}),
 	}
 }
@@ -162,6 +169,9 @@ func (m *LeaseManager) doAcquire(ctx context.Context, resourceID string) error {
 		return ErrNotOwner
 	}
 
+	if m.onAcquire != nil {
+		m.onAcquire(ctx, resourceID)
+	}
 	m.mu.Lock()
 	if m.session != session {
 		m.mu.Unlock()
@@ -190,6 +200,9 @@ func (m *LeaseManager) reacquire(ctx context.Context, resourceID, leaseKey strin
 		return ErrNotOwner
 	}
 
+	if m.onAcquire != nil {
+		m.onAcquire(ctx, resourceID)
+	}
 	m.mu.Lock()
 	if m.session != session {
 		m.mu.Unlock()
